@@ -373,7 +373,8 @@ impl DOP853 {
             f.ode(x + C11 * h, &y1, &mut k2);
 
             // Stage 12
-            xph = x + h;
+            // The last step lands on xend itself: x + (xend - x) can miss it by a rounding error
+            xph = if last { xend } else { x + h };
             for i in 0..n {
                 y1[i] = y[i]
                     + h * (A121 * k1[i]
